@@ -163,10 +163,20 @@ ENUM_OPS = {
     "fmt-s": [("str", [b"[", ("cat", []), b"]"], False)],
     "elem-elem": [("word", "elem"), ("word", "elem")],
     "dup-elem": [("word", "dup"), ("word", "elem")],
+    # a word applied to the 2nd, 3rd, ... result of another numbers its own (single) result from 0 again
+    "elem-hex": [("word", "elem"), ("word", "hex")],
+    "relem-dec": [("word", "relem"), ("word", "dec")],
+    "elem-oct": [("word", "elem"), ("word", "oct")],
+    "relem-bin": [("word", "relem"), ("word", "bin")],
+    "elem-value": [("word", "elem"), ("word", "value")],
+    "elem-length": [("word", "elem"), ("word", "length")],
+    "elem-type": [("word", "elem"), ("word", "type")],
+    "elem-add": [("word", "elem"), ("lit", 1, "dec"), ("word", "add")],
+    "elem-pos-hex": [("word", "elem"), ("word", "pos"), ("word", "hex")],
 }
 ENUM_TAILS = {"pos": [("word", "pos")], "plain": [], "?1": [("word", "?1")], "!0": [("word", "!0")],
               "type-pos": [("word", "type"), ("word", "pos")]}
-STREAM_POOL = [Q([]), Q([C(1)]), Q([C(1), C(2)]), Q([C(1), C(2), C(3)]), S(b""), S(b"a"), S(b"abc"), S(b"a\0b"),
+STREAM_POOL = [Q([C(10), C(20, "hex"), C(30)]), Q([C(7), C(7)]), Q([]), Q([C(1)]), Q([C(1), C(2)]), Q([C(1), C(2), C(3)]), S(b""), S(b"a"), S(b"abc"), S(b"a\0b"),
                Q([Q([C(1), C(2)]), S(b"xy")]), Q([S(b"ab"), Q([C(5)]), S(b"")])]
 
 
